@@ -218,6 +218,13 @@ def run(ck):
     R6 = ck.rule('R19.6', "timestr / timestr_approx split seconds with divmod by 86400, 3600, 60 "
                  "in this order and label the quotients d, h, m and the remainder s", 'M0', 6)
 
+    R7 = ck.rule('R19.7', "_convert as a whole (abstract run with stand-ins for the two compiled patterns, all "
+                 "combinations of absent / zero / integer / fractional elements): seconds = sum of element x "
+                 "unit; no element at all, a fraction anywhere but in the smallest present unit, a non-zero "
+                 "calendar year / month and a string neither pattern matches raise ValueError", 'abstract run', 3)
+    with ck.section('R19.7'):
+        _convert_run(ck, R7, prog, mod)
+
     with ck.section('R19.1'):
         # ---- constants
         tc = prog.module('utils.tconst')
@@ -667,3 +674,86 @@ def _rest_of_c19(ck, prog, mod, R4, R5, R6):
             ck.ob(R6, f"{fi.fid} :: negative refused", bool(neg),
                   "a negative number of seconds raises" if neg else
                   "negative input is not refused", fi, fi.node)
+
+
+def _convert_run(ck, R7, prog, mod):
+    """Layout-independent decision for utils.timeunits._convert: the function (and the module helpers it
+    calls) is interpreted with the two compiled patterns replaced by stand-ins whose fullmatch() hands
+    out a chosen tuple of groups, for every combination of element values."""
+    import itertools
+    from sa.minieval import MiniEval, Obj
+    conv = prog.func(f"{TU}:_convert")
+    p0 = conv.node.args.args[0].arg
+    consts = {}
+    for name in ('SEC_PER_MIN', 'SEC_PER_HOUR', 'SEC_PER_DAY'):
+        b = prog.lookup(mod, name)
+        ck.need(R7, b is not None and b[0] == 'value', f"constant {name} not found")
+        consts[name] = fold(prog, mod, b[1])
+    ck.need(R7, (consts['SEC_PER_MIN'], consts['SEC_PER_HOUR'], consts['SEC_PER_DAY']) == (60, 3600, 86400),
+            f"unit constants are {consts} (decided by R19.1)")
+
+    def resolve(text):
+        if text.isidentifier():
+            b = prog.lookup(mod, text)
+            if b is not None and b[0] == 'func' and b[1].fid != conv.fid:
+                return b[1].node
+        return None
+
+    def num(v):
+        return None if v is None else float(v.replace(',', '.'))
+    VALS = (None, '0', '2', '1.5', '0,5')
+    YM = (None, '0', '3')
+    scale = (86400, 3600, 60, 1)
+    bad = {'trad': [], 'iso': [], 'nomatch': []}
+    n = 0
+
+    def run_case(kind, groups):
+        def pattern(matches):
+            def fullmatch(_s):
+                return Obj('match', {'groups': lambda: tuple(groups), 'group': lambda i=0: groups[i - 1]}) \
+                    if matches else None
+            return Obj('pattern', {'fullmatch': fullmatch, 'match': fullmatch})
+        from sa.minieval import ModuleGlobals
+        glob = ModuleGlobals(prog, mod, dict(consts, _RE_DURATION=pattern(kind == 'trad'),
+                                             _RE_ISO_DURATION=pattern(kind == 'iso')))
+        return MiniEval(R7, {p0: 'TSTR'}, resolve, globals_=glob).run(conv.node.body)
+
+    def expected(ym, dhms):
+        present = [v for v in dhms if v is not None]
+        allv = list(ym) + list(dhms)
+        if all(v is None for v in allv):
+            return 'raise'
+        # smallest present unit = the last non-None element
+        last = max(i for i, v in enumerate(allv) if v is not None)
+        for i, v in enumerate(allv):
+            if v is not None and ('.' in v or ',' in v) and i != last:
+                return 'raise'
+        if any(v is not None and num(v) != 0 for v in ym):
+            return 'raise'
+        return sum(num(v) * sc for v, sc in zip(dhms, scale) if v is not None)
+    for dhms in itertools.product(VALS, repeat=4):
+        out = run_case('trad', dhms)
+        n += 1
+        want = expected((), dhms)
+        ok = (out[0] == 'raise' and 'ValueError' in str(out[1])) if want == 'raise' else \
+            (out[0] == 'return' and isinstance(out[1], (int, float)) and abs(out[1] - want) < 1e-9)
+        if not ok and len(bad['trad']) < 3:
+            bad['trad'].append(f"d,h,m,s = {dhms}: {out}; documented {want}")
+    for ym in itertools.product(YM, repeat=2):
+        for dhms in itertools.product((None, '0', '2', '1.5'), repeat=4):
+            out = run_case('iso', ym + dhms)
+            n += 1
+            want = expected(ym, dhms)
+            ok = (out[0] == 'raise' and 'ValueError' in str(out[1])) if want == 'raise' else \
+                (out[0] == 'return' and isinstance(out[1], (int, float)) and abs(out[1] - want) < 1e-9)
+            if not ok and len(bad['iso']) < 3:
+                bad['iso'].append(f"Y,M,D,h,m,s = {ym + dhms}: {out}; documented {want}")
+    out = run_case('none', ())
+    n += 1
+    if not (out[0] == 'raise' and 'ValueError' in str(out[1])):
+        bad['nomatch'].append(f"a string neither pattern matches: {out}")
+    ck.abstract_cases += n
+    for key, label in (('trad', 'traditional format'), ('iso', 'ISO 8601 format'), ('nomatch', 'no match')):
+        ck.ob(R7, f"{conv.fid} :: abstract run :: {label}", not bad[key],
+              f"as documented on all element combinations ({n} cases in total)" if not bad[key]
+              else '; '.join(bad[key]), conv, conv.node)
